@@ -39,8 +39,12 @@ var _ *imapserver.FetchWriter
 // Move itself therefore writes no EXPUNGE (writing them as well reported every
 // message twice, with numbers computed after the queueing - fixed defect F19).
 //
+// (That the mailbox invariant expungeLocked relies on still holds when Move
+// calls it, after copying into the destination through a closure, is not proved:
+// pre@call obligations of Move are not claimed under any property.)
+//
 //@ func (sess *UserSession) Move(w *imapserver.MoveWriter, numSet imap.NumSet, destName string) (err error)
-//@   props C08:post,callsite
+//@   props C08:post,callsite C04:post C05:post C06:post C09:post
 //@   ensures !__called("MoveWriter.WriteExpunge")
 //@   ensures err == nil ==> __called("MoveWriter.WriteCopyData") && __called("Mailbox.expungeLocked")
 
